@@ -125,3 +125,6 @@ for t in "sdcz":
         if s.count(a) != 1: raise SystemExit(f + ": expansions anchor")
         s = s.replace(a, a + '    SLU_VHOOK_MEM("C:FactEnd", Glu, "\\"info\\":%lld,\\"nnzL\\":%lld,\\"nnzU\\":%lld", (long long) *info, (long long) nnzL, (long long) nnzU);\n')
         open(f, "w").write(s); print("hooked:", f)
+
+# ---- refinement loop events (see /repo commit "hook: refinement loop events"): RefineIter after each evaluation of berr,
+# RefineStep / RefineStop in the two branches of the stopping test; slu_v_tok() declared next to slu_vhook in slu_util.h
